@@ -665,8 +665,22 @@ func (g *gen) genTypeDef() *TypeDef {
 	if td.Type == nil {
 		return nil
 	}
+	if g.cfg.TransitiveTypedefs && hasQualified(td.Type) {
+		g.feat("transitive_typedef")
+	}
 	td.Name = g.typeName()
 	return td
+}
+
+// hasQualified reports whether t names a type of another file.
+func hasQualified(t *Type) bool {
+	if t == nil {
+		return false
+	}
+	if t.IsContainer() {
+		return hasQualified(t.Key) || hasQualified(t.Val)
+	}
+	return strings.Contains(t.Name, ".")
 }
 
 func hasCustom(t *Type) bool {
